@@ -198,6 +198,30 @@ theorem after_wait_quiescent (cfg : Cfg) (as rest : List Act) (hj : (runAll cfg 
   rw [runAll, exec_append]
   exact exec_done_work cfg rest _ hd
 
+/-- `wait()` returns only once the filtering thread has ended: if the join is in the history,
+the thread's final store precedes it (so no callback of the thread — initialisation, step, run
+condition, schedule point — can come after the return of `wait()`). -/
+theorem wait_implies_ended (cfg : Cfg) (as : List Act) (later earlier : List Ev)
+    (h : (runAll cfg as).hist = later ++ Ev.joined :: earlier) : Ev.thrDone ∈ earlier := by
+  obtain ⟨as', _, hh⟩ := hist_prefix cfg as later _ earlier h
+  have hq := (invj_all cfg as').1
+  rw [hh] at hq
+  have := hq (by simp)
+  simpa [List.dropWhile] using this
+
+/-- A `boot()` that fails to create the thread leaves a filter on which commands only set flags:
+nothing is ever initialised or stepped, and `wait()` returns. -/
+theorem boot_failed_inert (cfg : Cfg) (as : List Act) :
+    (exec cfg St.bootFailed as).pc = PC.done ∧ workEvents (exec cfg St.bootFailed as).hist = [] ∧
+    ((exec cfg St.bootFailed as).joined = true ∨
+      (step cfg (exec cfg St.bootFailed as) (Act.c Cmd.wait)).joined = true) := by
+  have hd : (exec cfg St.bootFailed as).pc = PC.done := exec_done cfg as _ rfl
+  have hw := exec_done_work cfg as St.bootFailed rfl
+  refine ⟨hd, by simpa [St.bootFailed, workEvents] using hw, ?_⟩
+  generalize exec cfg St.bootFailed as = s at *
+  simp only [step, ctl, hd]
+  cases hj' : s.joined <;> simp_all
+
 /-! ## The repaired defect (fix 56cf611), kept as documentation
 
 Before the fix `teardown()` stored the flag without taking the mutex and without notifying.
